@@ -45,7 +45,7 @@ func genC18(t *rapid.T) E1Case {
 		c.Tasks = append(c.Tasks, E1Task{Role: "canceller", Ops: []E1Op{{Op: "cancelctx"}}})
 	}
 	if rapid.IntRange(0, 3).Draw(t, "withclose") == 0 {
-		c.Tasks = append(c.Tasks, E1Task{Role: "closer", Ops: []E1Op{{Op: "close", Err: rapid.SampledFrom([]string{"nil", "sentinel"}).Draw(t, "cerr")}}})
+		c.Tasks = append(c.Tasks, E1Task{Role: "closer", Ops: []E1Op{{Op: "close", Err: rapid.SampledFrom(closeErrKinds).Draw(t, "cerr")}}})
 		c.Futile = 1
 	}
 	if c.Stall == "" && rapid.IntRange(0, 2).Draw(t, "directed") == 0 {
@@ -64,6 +64,7 @@ func genC18(t *rapid.T) E1Case {
 func runC18(c E1Case) (out core.Outcome) {
 	r := newE1(c)
 	r.s.Watchdog = 4 * time.Second
+	r.wantBound = true
 	defer func() { out.Classes = r.cls.List() }()
 	r.execute()
 	nonblocking := c.Kind == "qnonblock"
@@ -252,12 +253,17 @@ func runC18(c E1Case) (out core.Outcome) {
 			r.cls.Add("parked-then-released-by-room")
 		}
 	}
-	limit := c.Queue + c.Queue/2 + 1
+	// "the batch being sent" was taken from the queue, so it never holds more than the queue does; how large the
+	// sender makes its batches is its own business (this tree: queue/2+1)
+	limit := 2 * c.Queue
+	if limit < c.Queue+1 {
+		limit = c.Queue + 1
+	}
 	if r.bound > limit {
-		out.Violation = core.Viol("C18/too-many-accepted-unsent", "%d payloads were accepted but not yet handed to the transport; queue size %d + batch %d = %d", r.bound, c.Queue, c.Queue/2+1, limit)
+		out.Violation = core.Viol("C18/too-many-accepted-unsent", "%d payloads were accepted but not yet handed to the transport; queue size %d + the largest batch that can be taken from it (%d) = %d", r.bound, c.Queue, limit-c.Queue, limit)
 		return
 	}
-	if r.bound == limit {
+	if r.bound >= c.Queue+1 {
 		r.cls.Add("bound-reached")
 	}
 	r.cls.Add("stall:%s", c.Stall)
